@@ -48,6 +48,10 @@ class Fault(Exception):
     pass
 
 
+class AssertFault(AssertionError):
+    """what the analysis' own sanity checks raise (a cleared frame, an unexpected layout): the kind of failure met in practice"""
+
+
 @contextlib.contextmanager
 def inject(helper, k):
     """the k-th call of the helper raises; reports whether it fired"""
@@ -61,7 +65,7 @@ def inject(helper, k):
         state["n"] += 1
         if state["n"] == k:
             state["fired"] = True
-            raise Fault(f"injected in {helper} call {k}")
+            raise (AssertFault if k == 2 else Fault)(f"injected in {helper} call {k}")
         return orig(*a, **kw)
     setattr(holder, name, wrapper)
     try:
@@ -119,7 +123,10 @@ for pname, (kind, src) in SRC.items():
     # number of suspension points
     A = []
     probe = fn(M, Trap, A); npoints = 0
-    while advance(kind, probe): npoints += 1
+    BASE = []          # per suspension point: the `as` names the default analysis reports (fault-free, before any injection)
+    while advance(kind, probe):
+        npoints += 1
+        BASE.append([c.varname for c in inspect(frame_of(kind, probe), probe)[0]])
     for point in range(npoints):
         for helper in HELPERS:
             for k in (1, 2, 3):
@@ -156,9 +163,11 @@ for pname, (kind, src) in SRC.items():
                 for _ in range(point + 1): advance(kind, obj2)
                 c3, e3, w3 = inspect(frame_of(kind, obj2), obj2)
                 for tag, cc, ee, ww, act in (("same frame", c2, e2, w2, active), ("fresh frame of the same function", c3, e3, w3, list(A2))):
-                    if ee is not None or ww or not exact(cc, act):
+                    # ... and it is the SAME analysis as before the fault (C06: a failed inspection changes nothing for later ones; a process-
+                    # wide switch to the fallback would lose the `as` names and lines)
+                    if ee is not None or ww or not exact(cc, act) or [c.varname for c in cc] != BASE[point] or any(c.start_line is None for c in cc):
                         leg.violation(key + (tag,), f"fault-free inspection AFTER a failed one ({tag}): raised={ee!r} warnings={len(ww or [])} "
-                                                    f"result={[c.obj for c in cc] if cc is not None else None} active={act}")
+                                                    f"result={[(c.obj, c.varname, c.start_line) for c in cc] if cc is not None else None} active={act} names expected={BASE[point]}")
                         break
                 for o in (obj, obj2):
                     o.close()
